@@ -238,11 +238,49 @@ def generic_vector_shapes():
     return out
 
 
+def auto_text_shapes():
+    """For every list-valued text type: each distinct element of each seed of the type, repeated n times (so every
+    term / directive / attribute kind the seeds contain becomes a 'many items' shape of its own)."""
+    from mc.props import c18
+    out = []
+    specs = [(t[0], t[1], t[2]) for t in c18.TYPES] + [('HttpHeaderFields', '\r\n', 0)]
+    for cname, sep, fixed in specs:
+        cls = [c for c in classes.parsable_classes() if c.__name__ == cname]
+        if not cls:
+            continue
+        qn = classes.qualname(cls[0])
+        seen = []
+        for seed in c02.seeds_of(qn):
+            try:
+                text = seed.decode('ascii')
+            except UnicodeDecodeError:
+                continue
+            els = [e.strip(' \t') for e in text.split(sep)] if sep != ' ' else text.split(' ')
+            els = [e for e in els if e]
+            prefix = els[:fixed]
+            for e0 in els[fixed:]:
+                # the element as it is, and cut before each optional suffix (so that 'a:example.com/32/128' also
+                # yields 'a:example.com' - optional parts change which separator ends an item)
+                cands = [e0] + [e0.split(ch)[0] for ch in '/=:' if ch in e0 and e0.split(ch)[0]]
+                for e in cands:
+                    if e not in [x[1] for x in seen] and len(seen) < 24:
+                        seen.append((prefix, e))
+        for k, (prefix, e) in enumerate(seen):
+            joiner = sep + ' ' if sep not in (' ', '\r\n') else sep
+            tail = '\r\n\r\n' if sep == '\r\n' else ''
+
+            def gen(n, prefix=prefix, e=e, joiner=joiner, tail=tail):
+                return (joiner.join(prefix + [e] * n) + tail).encode('ascii')
+            label = 'many_' + ''.join(ch if ch.isalnum() else '_' for ch in e.split('=')[0].split(':')[0])[:24] + '_%d' % k
+            out.append((cname, label, gen, 8))
+    return out
+
+
 def all_shapes():
     have = set()
     out = []
     names = {c.__name__ for c in classes.parse_entry_classes()}
-    for s in hand_shapes() + generic_vector_shapes():
+    for s in hand_shapes() + generic_vector_shapes() + auto_text_shapes():
         if s[0] in names and (s[0], s[1]) not in have:
             have.add((s[0], s[1]))
             out.append(s)
